@@ -349,6 +349,40 @@ func runC15(r *Run) {
 			})
 			r.Check(sorted, "C15.2", fmt.Sprintf("%s#collected%d(sorted)", FuncName(fn), i+1), w.InstrPos(ap), "a slice filled while ranging over a map must be sorted before it is consumed")
 		}
+		// one sink: when the bytes are assembled in a buffer that is flushed into the hasher, nothing is
+		// written to the hasher directly as well (the direct bytes would arrive before the buffered
+		// ones: elements lose their delimiters and different inputs hash alike)
+		var flushes, direct []ssa.Instruction
+		fa.Instrs(func(in ssa.Instruction) {
+			c := callCommon(in)
+			if c == nil {
+				return
+			}
+			_, n := calleeName(c)
+			isHasher := func(v ssa.Value) bool { return strings.HasPrefix(fa.sh.Of(v).String(), "@blake2b.New(") }
+			switch {
+			case strings.HasSuffix(n, "Hash.Write") || n == "io.Writer.Write":
+				if c.IsInvoke() && isHasher(c.Value) {
+					if len(c.Args) == 1 && strings.Contains(fa.sh.Of(c.Args[0]).String(), "@bytes.Buffer.Bytes(") {
+						flushes = append(flushes, in)
+					} else {
+						direct = append(direct, in)
+					}
+				}
+			case n == "fmt.Fprintf" || n == "fmt.Fprint" || n == "fmt.Fprintln" || n == "io.WriteString":
+				if len(c.Args) > 0 && isHasher(c.Args[0]) {
+					direct = append(direct, in)
+				}
+			}
+		})
+		if len(flushes) > 0 {
+			for i, d := range direct {
+				r.Fail("C15.4", fmt.Sprintf("%s#direct-write-beside-buffer%d", FuncName(fn), i+1), w.InstrPos(d), "bytes are written to the hasher directly although the rest is assembled in a buffer flushed later: the order of the hashed bytes is not the order of the fields")
+			}
+			if len(direct) == 0 {
+				r.Pass("C15.4", FuncName(fn)+"(one-sink)", w.Pos(fn.Pos()), "everything hashed goes through the one buffer")
+			}
+		}
 		// a comparator handed to a sort in a hash function is a consistent order: each comparison it
 		// makes relates the SAME component of its two elements (comparing a.x with b.y is not an
 		// ordering; the sorted result, and so the hash, would depend on the input order)
@@ -363,12 +397,8 @@ func runC15(r *Run) {
 				return
 			}
 			for _, arg := range c.Args {
-				mc, ok := arg.(*ssa.MakeClosure)
-				if !ok {
-					continue
-				}
-				cf, ok := mc.Fn.(*ssa.Function)
-				if !ok {
+				cf := funcValueOf(arg)
+				if cf == nil {
 					continue
 				}
 				ca := w.A(cf)
